@@ -303,11 +303,90 @@ func executeSubproc(c Case, keepTrace bool, bin string) Result {
 			}
 		}
 	}
+	if len(c.Burst) > 0 {
+		if v := burst(c, p, latest, shown, fd, &res, tr); v != nil || res.HarnessErr != "" {
+			if v != nil {
+				v.Detail = "[real binary] " + v.Detail
+			}
+			res.Violation = v
+			return res
+		}
+	}
 	if len(c.Frags) > 0 {
 		res.Probes["fault/fragmented_stream"]++
 	}
 	res.Nontrivial = res.Handled >= 3
 	return res
+}
+
+// burst writes several changes (different documents) and a closing request in ONE write, then
+// reads until the closing request is answered. The server handles messages in order, so by
+// then everything the changes publish has been written; every changed document must have
+// been shown the diagnostics of its new text.
+func burst(c Case, p *proc, latest, shown map[string]string, fd func(string, string) (string, bool), res *Result, tr *core.Trace) *core.Violation {
+	var buf []byte
+	var sent []Msg
+	for j, m := range c.Burst {
+		if _, open := latest[m.URI]; !open {
+			continue // (a minimised history may have lost the open: changes go to open documents only)
+		}
+		buf = append(buf, frame(m.body(2000+j))...)
+		sent = append(sent, m)
+	}
+	if len(sent) < 2 {
+		return nil
+	}
+	c.Burst = sent
+	const syncID = 950000
+	buf = append(buf, frame(Msg{Kind: "unknown"}.body(syncID))...)
+	if _, err := p.in.Write(buf); err != nil {
+		return nil // the process is gone: crash consistency is the other oracles' business
+	}
+	res.Probes["bursts_of_changes_in_one_write"]++
+	var notifs [][]byte
+	for k := 0; ; k++ {
+		if k > 4*len(c.Burst)+8 {
+			res.HarnessErr = "burst: closing request not answered"
+			return nil
+		}
+		b, err := p.readFrame()
+		if err != nil {
+			if strings.HasPrefix(err.Error(), "watchdog") {
+				res.HarnessErr = "burst: " + err.Error()
+			}
+			return nil // the server died on one of the texts: no verdict here
+		}
+		v, _ := decode(b).(map[string]any)
+		if v == nil {
+			res.HarnessErr = "burst: undecodable frame"
+			return nil
+		}
+		if _, isNotif := v["method"]; isNotif {
+			notifs = append(notifs, b)
+			continue
+		}
+		if fmt.Sprint(v["id"]) == fmt.Sprint(syncID) {
+			break
+		}
+	}
+	res.Handled += len(c.Burst)
+	for _, m := range c.Burst {
+		latest[m.URI] = m.latestText()
+	}
+	tr.Add("burst of %d changes in one write -> notifs=%s", len(c.Burst), core.Truncate(notifCanon(notifs), 400))
+	if v := checkPublished(notifs, latest, shown, fd); v != nil {
+		return v
+	}
+	for _, m := range c.Burst {
+		want, ok := fd(m.URI, latest[m.URI])
+		if res.HarnessErr != "" {
+			return nil
+		}
+		if ok && shownOr(shown, m.URI) != want {
+			return viol("freshness", "diagnostics-not-refreshed", fmt.Sprintf("%d changes to different documents arrived in one write; afterwards the client shows for %s: %s ; a fresh process publishes %s", len(c.Burst), m.URI, core.Truncate(shownOr(shown, m.URI), 400), core.Truncate(want, 400)))
+		}
+	}
+	return nil
 }
 
 // checkReplySub mirrors checkReply with fresh *processes* as the reference.
